@@ -23,29 +23,9 @@ Section Can.
   Notation s := (cf_spec c).
   Notation hdr := (sp_hdr_len (cf_spec c)).
 
-  (* Avtp_<Fmt>_SetField(pdu, FIELD, value) / Avtp_<Fmt>_GetField(pdu, FIELD) *)
-  Definition setf (name:string) (v:N) (b:buf) : outcome buf :=
-    match find_sfield (sp_fields s) name with
-    | Some f => match writers_of s f with
-                | (u, st, pf) :: _ =>
-                    match run_setter ldq stq cfg (u_tables u) st (Some b) (pf v) with
-                    | Ok (Some b') => Ok b' | Ok None => Unmodelled | OOB q => OOB q | Unmodelled => Unmodelled end
-                | [] => Unmodelled
-                end
-    | None => Unmodelled
-    end.
-  (* dedicated getter of a field (second access path) *)
-  Definition getf_ded (name:string) (b:buf) : outcome N :=
-    match find_sfield (sp_fields s) name with
-    | Some f => match readers_of s f with
-                | _ :: (u, g, p) :: _ => run_getter ldq stq cfg (u_tables u) g (Some b) p
-                | _ => Unmodelled
-                end
-    | None => Unmodelled
-    end.
-
-  Definition bind {A B} (o:outcome A) (k:A -> outcome B) : outcome B :=
-    match o with Ok a => k a | OOB q => OOB q | Unmodelled => Unmodelled end.
+  (* Avtp_<Fmt>_SetField(pdu, FIELD, value); dedicated getters: Paths.fsetf / fgetd *)
+  Definition setf := fsetf ldq stq s.
+  Definition getf_ded := fgetd ldq stq s.
 
   (* memcpy(pdu->payload, payload, payload_length): payload_length is uint16_t *)
   Definition can_set_payload (b:buf) (payload:list N) (plen:N) : outcome buf :=
@@ -96,11 +76,6 @@ Definition cf_brief : canfmt := mkcanfmt spec_CanBrief "AVTP_CAN_BRIEF_FIELD_EFF
 Local Close Scope string_scope.
 
 (* ---------- reference: what the property text says a built message looks like ---------- *)
-Definition ref_set (s:sformat) (name:string) (v:N) (b:buf) : buf :=
-  match find_sfield (sp_fields s) name with
-  | Some f => spec_insert b (sf_first f) (sf_width f) v
-  | None => b
-  end.
 (* payload verbatim behind the header, zero fill to the quadlet boundary, length (quadlets), pad count,
    identifier, eff = (id > 0x7ff), fdf = variant; nothing else *)
 Definition can_ref (c:canfmt) (b:buf) (id:N) (payload:list N) (variant:N) : buf * N :=
@@ -119,16 +94,7 @@ Section Compose.
   Variable ldq : buf -> N -> N.
   Variable stq : buf -> N -> N -> buf.
   Variable c : canfmt.
-  Definition setd (name:string) (v:N) (b:buf) : outcome buf :=
-    match find_sfield (sp_fields (cf_spec c)) name with
-    | Some f => match writers_of (cf_spec c) f with
-                | _ :: (u, st, pf) :: _ =>
-                    match run_setter ldq stq cfg (u_tables u) st (Some b) (pf v) with
-                    | Ok (Some b') => Ok b' | Ok None => Unmodelled | OOB q => OOB q | Unmodelled => Unmodelled end
-                | _ => Unmodelled
-                end
-    | None => Unmodelled
-    end.
+  Definition setd := fsetd ldq stq (cf_spec c).
   Fixpoint setds (l:list (string * N)) (b:buf) : outcome buf :=
     match l with
     | [] => Ok b
